@@ -20,7 +20,7 @@ class Abort(BaseException):
 class Stats:
     def __init__(self):
         self.queries = 0; self.q_lin = 0; self.q_nl = 0; self.solver_s = 0.0
-        self.unknown = 0; self.paths = 0; self.aborted = 0; self.q_stageA = 0; self.q_stage0 = 0
+        self.unknown = 0; self.paths = 0; self.aborted = 0; self.q_stageA = 0; self.q_stage0 = 0; self.q_interval = 0
     def add(self, o):
         for k in self.__dict__:
             setattr(self, k, getattr(self, k) + getattr(o, k))
@@ -139,8 +139,13 @@ class Ctx:
                 raise Abort('prefix desync (bool expected)')
             self._record(d, term if d else z3.Not(term))
             return d
-        rt = self.check(term)
-        rf = self.check(z3.Not(term))
+        it = interval_truth(term, self.ranges)
+        if it is not None:
+            self.stats.q_interval += 1
+            rt, rf = (z3.sat, z3.unsat) if it else (z3.unsat, z3.sat)
+        else:
+            rt = self.check(term)
+            rf = self.check(z3.Not(term)) if rt != z3.unsat else z3.sat
         if rt == z3.unknown or rf == z3.unknown:
             self.approx = True
         can_t = rt != z3.unsat
@@ -314,6 +319,43 @@ def _imul(a, b):
     return (min(ps), max(ps))
 
 
+def _imul2(a, b):
+    """product of enclosures where a bound may be missing (None) but signs may still be known"""
+    if None not in a and None not in b: return _imul(a, b)
+    nonneg = lambda i: i[0] is not None and i[0] >= 0
+    if nonneg(a) and nonneg(b):
+        hi = None if a[1] is None or b[1] is None else a[1] * b[1]
+        return (a[0] * b[0], hi)
+    return (None, None)
+
+
+def interval_truth(t, ranges, memo=None):
+    """True / False if the enclosure analysis decides the boolean term, else None"""
+    if memo is None: memo = {}
+    if z3.is_true(t): return True
+    if z3.is_false(t): return False
+    if not z3.is_app(t): return None
+    kind = t.decl().kind(); ch = t.children()
+    if kind == z3.Z3_OP_NOT:
+        r = interval_truth(ch[0], ranges, memo); return None if r is None else not r
+    if kind == z3.Z3_OP_AND:
+        rs = [interval_truth(c, ranges, memo) for c in ch]
+        if any(r is False for r in rs): return False
+        return True if all(r is True for r in rs) else None
+    if kind == z3.Z3_OP_OR:
+        rs = [interval_truth(c, ranges, memo) for c in ch]
+        if any(r is True for r in rs): return True
+        return False if all(r is False for r in rs) else None
+    if kind in (z3.Z3_OP_LE, z3.Z3_OP_LT, z3.Z3_OP_GE, z3.Z3_OP_GT) and len(ch) == 2:
+        a = interval(ch[0], ranges, memo); b = interval(ch[1], ranges, memo)
+        if kind in (z3.Z3_OP_GE, z3.Z3_OP_GT): a, b = b, a; kind = z3.Z3_OP_LE if kind == z3.Z3_OP_GE else z3.Z3_OP_LT
+        # now a (<= | <) b
+        if a[1] is not None and b[0] is not None and (a[1] < b[0] or (kind == z3.Z3_OP_LE and a[1] <= b[0])): return True
+        if a[0] is not None and b[1] is not None and (a[0] > b[1] or (kind == z3.Z3_OP_LT and a[0] >= b[1])): return False
+        return None
+    return None
+
+
 def _interval(t, ranges, memo):
     if z3.is_rational_value(t) or z3.is_int_value(t):
         v = _fr(t); return (v, v)
@@ -336,8 +378,22 @@ def _interval(t, ranges, memo):
         lo, hi = iv[0]
         return (None if hi is None else -hi, None if lo is None else -lo)
     if kind == z3.Z3_OP_MUL:
-        r = iv[0]
-        for i in iv[1:]: r = _imul(r, i)
+        # pair identical factors: x*x >= 0
+        rest = list(zip(ch, iv)); r = (Fraction(1), Fraction(1))
+        while rest:
+            c0, i0 = rest.pop(0)
+            j = next((k for k, (c1, _) in enumerate(rest) if c1.eq(c0)), None)
+            if j is not None:
+                rest.pop(j)
+                sq = _imul(i0, i0)
+                if sq[0] is not None:
+                    lo = Fraction(0) if i0[0] <= 0 <= i0[1] else min(i0[0] * i0[0], i0[1] * i0[1])
+                    sq = (lo, max(i0[0] * i0[0], i0[1] * i0[1]))
+                else:
+                    sq = (Fraction(0), None)
+                r = _imul2(r, sq)
+            else:
+                r = _imul2(r, i0)
         return r
     if kind == z3.Z3_OP_DIV:
         d = iv[1]
@@ -812,21 +868,17 @@ class SV:
     def imag(s): return 0.0
     def sqrt(s):
         c = ctx()
-        if not (s >= 0):
-            raise Abort('sqrt of negative')
+        if s.cases is not None and len(s.cases) > 1:
+            lows = [interval(z3.simplify(v), c.ranges)[0] for _, v in s.cases]
+            if not all(l is not None and l >= 0 for l in lows):
+                if not (s >= 0): raise Abort('sqrt of negative')
+            return SV(cases=[(g, term(_sqrt_term(c, v, True))) for g, v in s.cases])
         st = z3.simplify(s.t)
-        key = ('sqrt', st.sexpr())
-        if key in c.opaque:
-            return SV(c.opaque[key])
-        for k in (1, 0, 4, 9):
-            if c.check(s.t != k) == z3.unsat:
-                return float(math.isqrt(k))
-        r = c.fresh('sqrt')
-        c.opaque[key] = r
-        c.axioms.append(z3.And(r >= 0, r * r == st))
-        lo, hi = interval(st, c.ranges)
-        _set_range(c, r, _fsqrt(lo, False) if lo is not None and lo > 0 else Fraction(0), _fsqrt(hi, True) if hi is not None else None)
-        return SV(r)
+        lo = interval(st, c.ranges)[0]
+        if not (lo is not None and lo >= 0):
+            if not (s >= 0):
+                raise Abort('sqrt of negative')
+        return _sqrt_term(c, st, False)
     def cos(s): return opaque('cos', s)
     def sin(s): return opaque('sin', s)
     def tan(s): return opaque('tan', s)
@@ -887,8 +939,7 @@ class SV:
         raise Abort(c.aborted)
     def __index__(s):
         if s.is_int: return ctx().concretize(s, what='index')
-        c = ctx(); c.aborted = 'index of symbolic real'
-        raise Abort(c.aborted)
+        raise TypeError("'float' object cannot be interpreted as an integer")
     def __complex__(s):
         c = ctx(); c.aborted = 'complex() of symbolic value'
         raise Abort(c.aborted)
@@ -903,6 +954,25 @@ class SV:
     def ndim(s): return 0
     @property
     def dtype(s): return _np.dtype(object)
+
+
+def _sqrt_term(c, st, nonneg_known):
+    st = z3.simplify(st)
+    if z3.is_rational_value(st) or z3.is_int_value(st):
+        return math.sqrt(float(_fr(st)))
+    key = ('sqrt', st.sexpr())
+    if key in c.opaque:
+        return SV(c.opaque[key])
+    if len(free_vars(st)) <= 4:
+        for k in (1, 0, 4, 9):          # constant forcing (e.g. the norm of a unit axis)
+            if c.check(st != k, timeout_ms=min(c.timeout_ms, RESOLVE_TIMEOUT_MS)) == z3.unsat:
+                return float(math.isqrt(k))
+    r = c.fresh('sqrt')
+    c.opaque[key] = r
+    c.axioms.append(z3.And(r >= 0, r * r == st))
+    lo, hi = interval(st, c.ranges)
+    _set_range(c, r, _fsqrt(lo, False) if lo is not None and lo > 0 else Fraction(0), _fsqrt(hi, True) if hi is not None else None)
+    return SV(r)
 
 
 def _iszero(o):
@@ -1156,8 +1226,12 @@ def _prep_index(idx):
         if any(isinstance(v, SB) for v in flat) or all(isinstance(v, (bool, _np.bool_, SB)) for v in flat) and flat:
             return _np.array([bool(v) for v in flat], dtype=bool).reshape(idx.shape)
         if any(isinstance(v, SV) for v in flat):
+            if any((isinstance(v, SV) and not v.is_int) or isinstance(v, float) for v in flat):
+                raise IndexError('arrays used as indices must be of integer (or boolean) type')
             return _np.array([int(v) for v in flat], dtype=int).reshape(idx.shape)
     if isinstance(idx, SV):
+        if not idx.is_int:
+            raise IndexError('only integers, slices (`:`), ellipsis (`...`), numpy.newaxis (`None`) and integer or boolean arrays are valid indices')
         return int(idx)
     if isinstance(idx, SB):
         return bool(idx)
@@ -1678,9 +1752,6 @@ class NPShim(types.ModuleType):
     def radians(self, x): return x * (math.pi / 180.0) if _is_symarr(x) else _np.radians(x)
     def degrees(self, x): return x * (180.0 / math.pi) if _is_symarr(x) else _np.degrees(x)
     def trace(self, a, *args, **k): return trace_(a, *args, **k)
-    def float64(self, x=0.0):
-        if is_sym(x): return x
-        return _np.float64(x)
 
 
 npshim = NPShim()
